@@ -77,6 +77,8 @@ pub struct Pair {
     pub locale: &'static str,
     pub model: Model<'static>,
     pub always_evaluate: bool,
+    /// what the cell holds before the input is typed: "text:<input>" (typed first) or "fmt:<number format>" (style set first)
+    pub before: Option<&'static str>,
     inputs: usize,
 }
 
@@ -87,6 +89,7 @@ impl Pair {
             locale,
             model: Model::new_empty("c18", locale, "UTC", lang).expect("model"),
             always_evaluate: false,
+            before: None,
             inputs: 0,
         }
     }
@@ -94,8 +97,10 @@ impl Pair {
         self.inputs += 1;
         if self.inputs > 20_000 {
             let ae = self.always_evaluate;
+            let bf = self.before;
             *self = Pair::new(self.lang, self.locale);
             self.always_evaluate = ae;
+            self.before = bf;
         }
     }
     fn clear(&mut self) {
@@ -251,10 +256,22 @@ pub fn check_input(p: &mut Pair, x: &str, family: &str) -> Outcome {
 
 fn check_input_inner(p: &mut Pair, x: &str, family: &str) -> Outcome {
     p.reset_if_big();
-    let case = json!({"lang": p.lang, "locale": p.locale, "input": x, "family": family});
+    let case = json!({"lang": p.lang, "locale": p.locale, "input": x, "family": family, "before": p.before});
     let (lang, locale) = (p.lang, p.locale);
+    let before = p.before;
     let r = crate::env::guarded(|| {
         p.clear();
+        match before {
+            Some(b) if b.starts_with("text:") => {
+                let _ = p.model.set_user_input(0, 1, 1, b[5..].to_string());
+            }
+            Some(b) if b.starts_with("fmt:") => {
+                let mut st = Style::default();
+                st.num_fmt = b[4..].to_string();
+                let _ = p.model.set_cell_style(0, 1, 1, &st);
+            }
+            _ => {}
+        }
         if p.model.set_user_input(0, 1, 1, x.to_string()).is_err() {
             return None;
         }
@@ -270,11 +287,20 @@ fn check_input_inner(p: &mut Pair, x: &str, family: &str) -> Outcome {
         Ok(None) => Outcome { d: None, first: None, changed_text: false },
         Ok(Some((c1, c2))) => {
             let d = compare(lang, &c1, &c2).map(|(sig, detail)| Disagreement {
-                sig,
+                sig: match before {
+                    Some(b) if b.starts_with("fmt:") => format!("{} cell-before={} locale={}", sig, b, locale),
+                    Some(b) => format!("{} cell-before={}", sig, b),
+                    None => sig,
+                },
                 case,
                 detail: format!(
-                    "[{}/{}] typing `{}` shows `{}`; typing that back: {}",
-                    lang, locale, x, c1.content, detail
+                    "[{}/{}] typing `{}`{} shows `{}`; typing that back: {}",
+                    lang,
+                    locale,
+                    x,
+                    before.map(|b| format!(" into a cell prepared with {}", b)).unwrap_or_default(),
+                    c1.content,
+                    detail
                 ),
             });
             let changed_text = c1.content != x;
@@ -282,6 +308,7 @@ fn check_input_inner(p: &mut Pair, x: &str, family: &str) -> Outcome {
         }
         Err(e) => {
             *p = Pair::new(lang, locale);
+            p.before = before;
             Outcome {
                 d: Some(Disagreement {
                     sig: format!("panic at={}", e.rsplit(" @ ").next().unwrap_or("?")),
@@ -462,6 +489,25 @@ pub fn run(run: &mut Run) {
             for f in CORPUS {
                 t.take(check_corpus(lang, locale, f));
             }
+            // the same re-entry judgement when the cell already held something: quote-prefixed text, a percentage, a
+            // date, a currency amount typed before, or a date / month-name / percent number format set before
+            const BEFORE: [&str; 7] = ["text:'007", "text:50%", "text:2020-01-02", "text:$5", "fmt:dd-mmm-yyyy", "fmt:mmmm d, yyyy", "fmt:0.00%"];
+            for b in BEFORE {
+                p.before = Some(b);
+                for len in 1..=3 {
+                    for_each_with_prefix(&NUM_ALPHABET, &[], len, &mut |s| {
+                        t.take(check_input(&mut p, s, "numeric-over-previous"));
+                    });
+                }
+                for s in LOOKALIKES {
+                    t.take(check_input(&mut p, s, "look-alike-over-previous"));
+                }
+                for m in 1..=12 {
+                    t.take(check_input(&mut p, &format!("2024-{:02}-15", m), "iso-date-over-previous"));
+                    t.take(check_input(&mut p, &format!("1999-{:02}-01", m), "iso-date-over-previous"));
+                }
+            }
+            p.before = None;
         }
         t
     });
@@ -484,7 +530,9 @@ pub fn run(run: &mut Run) {
         + crate::fnum::count_strings(FORMULA_ALPHABET.len(), 3)
         + LOOKALIKES.len() as u64
         + names.len() as u64
-        + CORPUS.len() as u64;
+        + CORPUS.len() as u64
+        // the pass over cells that held something before: 7 preparations x (numeric strings <= 3, look-alikes, 24 ISO dates)
+        + 7 * (crate::fnum::count_strings(k, 3) + LOOKALIKES.len() as u64 + 24);
     if total.n != per_pair_inputs * prs.len() as u64 {
         run.machinery_errors.push(format!("enumerated {} inputs, expected {}", total.n, per_pair_inputs * prs.len() as u64));
     }
@@ -529,5 +577,7 @@ pub fn replay(case: &Value) -> Vec<Disagreement> {
         return check_corpus(lang, locale, x).d.into_iter().collect();
     }
     let mut p = Pair::new(lang, locale);
+    p.before = case["before"].as_str().map(|b| &*Box::leak(b.to_string().into_boxed_str()));
+    p.always_evaluate = family.starts_with("look-alike");
     check_input(&mut p, x, family).d.into_iter().collect()
 }
